@@ -162,9 +162,10 @@ Record rcfacts := mkRc {
   rc_dec_single : bool;    (* refDec: exactly one -- (RMW) of refCounter ... *)
   rc_dec_own_result : bool;(* ... whose own result is compared with 0 ... *)
   rc_dec_deletes : bool;   (* ... and exactly that comparison guards `delete this` *)
-  rc_use_load : bool       (* useCount returns the counter's value *)
+  rc_use_load : bool;      (* useCount returns the counter's value *)
+  rc_width64 : bool        (* the counter's value type is a 64-bit signed integer (long long / long / int64_t) *)
 }.
-Definition model_rc := mkRc true true true true true true true.
+Definition model_rc := mkRc true true true true true true true true.
 
 Definition prog_of (tbl : meth -> list mop) (m : meth) : list mop :=
   match m with MDtor => tbl m ++ [MDead] | _ => tbl m end.
@@ -530,7 +531,7 @@ Definition meth_ok (gen : meth -> list mop) (m : meth) : bool :=
   forallb (fun c => outcome_eqb (outcome (gen m) c) (outcome (model_table m) c)) (cfgs m).
 Definition rc_ok (r : rcfacts) : bool :=
   rc_atomic r && rc_init_one r && rc_inc_single r && rc_dec_single r && rc_dec_own_result r &&
-  rc_dec_deletes r && rc_use_load r.
+  rc_dec_deletes r && rc_use_load r && rc_width64 r.
 Definition check (gen : meth -> list mop) (r : rcfacts) : bool :=
   forallb (meth_ok gen) all_meths && rc_ok r.
 (* first member whose generated program differs, for the report *)
@@ -697,3 +698,6 @@ Definition free_ok (l : list fdecl) : bool := list_eqb fdecl_eqb l model_free.
 Definition handle_eq_mixed_old (s : sstate) (a b : nat) : bool :=
   Bool.eqb (match handle_ptr s a with Some _ => true | None => false end)
            (match handle_ptr s b with Some _ => true | None => false end).
+
+(* the counter as a 64-bit two's-complement integer: what the unbounded count becomes in the machine *)
+Definition wrap64 (z : Z) : Z := (z + 2 ^ 63) mod 2 ^ 64 - 2 ^ 63.
